@@ -78,6 +78,16 @@ def values(case, k):
     return base + rng.uniform(0, 0.5, size=(nr, nc))
 
 
+def exact_equal(a, b):
+    """element-wise equality without silent int64 -> float64 promotion (which would round integers above 2**53 on both sides)"""
+    a, b = np.asarray(a), np.asarray(b)
+    if a.shape != b.shape:
+        return False
+    if a.dtype.kind in "iu" or b.dtype.kind in "iu":
+        return [int(x) if float(x).is_integer() else float(x) for x in a.ravel().tolist()] == [int(x) if float(x).is_integer() else float(x) for x in b.ravel().tolist()]
+    return bool(np.array_equal(a, b))
+
+
 def default_names(n):
     return [("scalars",), ("east_component", "north_component"), ("east_component", "north_component", "vertical_component")][n - 1]
 
@@ -131,7 +141,7 @@ def check_grid(case, ctx):
     for k, name in enumerate(names or []):
         ctx.check(ds[name].dims == dims, "variable %s has dims %r, expected %r", name, ds[name].dims, dims)
         ctx.check(ds[name].shape == (case["nr"], case["nc"]), "variable %s has shape %r", name, ds[name].shape)
-        if not np.array_equal(ds[name].values, data[k]):
+        if not exact_equal(ds[name].values, data[k]):
             raise Violation("variable %s does not hold its source values cell by cell" % name)
         # address a few cells by coordinate
         for (i, j) in {(0, 0), (case["nr"] - 1, 0), (0, case["nc"] - 1), (case["nr"] // 2, case["nc"] // 2)}:
@@ -150,13 +160,13 @@ def check_grid(case, ctx):
         ctx.check(np.array_equal(table[dims[1]].values, ee.ravel()), "table easting column is not the row-major meshgrid easting")
         ctx.check(np.array_equal(table[dims[0]].values, nn.ravel()), "table northing column is not the row-major meshgrid northing")
         for k, name in enumerate(names):
-            ctx.check(np.array_equal(table[name].values, data[k].ravel()), "table column %s is not the raveled input", name)
+            ctx.check(exact_equal(table[name].values, data[k].ravel()), "table column %s is not the raveled input (values %r...)", name, table[name].values[:3].tolist())
         for k, name in enumerate(extra_names or []):
             ctx.check(np.array_equal(table[name].values, coords[2 + k].ravel()), "table column %s is not the raveled extra coordinate", name)
         # a single DataArray (named) and unnamed
         da = ds[names[0]]
         t2 = vd.grid_to_table(da)
-        ctx.check(np.array_equal(t2[names[0]].values, data[0].ravel()) and np.array_equal(t2[dims[1]].values, ee.ravel())
+        ctx.check(exact_equal(t2[names[0]].values, data[0].ravel()) and np.array_equal(t2[dims[1]].values, ee.ravel())
                   and np.array_equal(t2[dims[0]].values, nn.ravel()), "grid_to_table of a DataArray misplaces values")
     ctx.label("vars%d" % case["nvars"], "extra%d" % case["nextra"], "coords2d" if case["coords_2d"] else "coords1d",
               "custom_dims" if case["dims"] else "default_dims", "int" if case["int_data"] else "float",
@@ -204,14 +214,14 @@ def check_table(case, ctx):
         grid = xr.Dataset({n: (dims, d) for n, d in items}, coords=cdict)
         table = vd.grid_to_table(grid)
         for n, d in items:
-            ctx.check(np.array_equal(table[n].values, d.ravel()), "column %s is not that variable's values in row-major order", n)
+            ctx.check(exact_equal(table[n].values, d.ravel()), "column %s is not that variable's values in row-major order", n)
     else:
         name = names[0] if case["kind"] == "dataarray_named" else None
         grid = xr.DataArray(data[0], coords=cdict, dims=dims, name=name)
         table = vd.grid_to_table(grid)
         col = name if name is not None else "scalars"
         ctx.check(col in table.columns, "expected a column %r, got %r", col, list(table.columns))
-        ctx.check(np.array_equal(table[col].values, data[0].ravel()), "data column is not the values in row-major order")
+        ctx.check(exact_equal(table[col].values, data[0].ravel()), "data column is not the values in row-major order")
     ctx.check(len(table) == case["nr"] * case["nc"], "table has %d rows for %d cells", len(table), case["nr"] * case["nc"])
     ctx.check(dims[0] in table.columns and dims[1] in table.columns, "the northing and easting dims must be columns, got %r", list(table.columns))
     ctx.check(np.array_equal(table[dims[1]].values, ee.ravel()), "easting column is not each cell's easting")
